@@ -374,9 +374,11 @@ def run_check(prop, spec, tier, replay=None):
             opss = [spec["ops"](g, md, nops) if spec.get("ops") else g.gen_ops(md, nops) for _ in range(spec.get("nlists", 3))]
             for c in spec["cfgs"]:
                 cases.append((name, md, c, opss))
-        for prof, nq, nt in spec.get("extra", []):
+        for ex in spec.get("extra", []):
+            prof, nq, nt = ex[:3]
+            opsgen = ex[3] if len(ex) > 3 else "gen_ops"
             for name, g, md in machines_for(prof, seed, nq if tier == "quick" else nt):
-                opss = [g.gen_ops(md, nops) for _ in range(2)]
+                opss = [getattr(g, opsgen)(md, nops) for _ in range(2)]
                 for c in spec.get("extra_cfgs", SIX_CFGS):
                     cases.append((name, md, c, opss))
         for nm in spec.get("corpus", []):
